@@ -32,9 +32,59 @@ def run(ck):
     ck.rule("C03-O6", "the worker is created without a parent and moved to the thread before the thread starts")
     ck.rule("C03-O7", "a null source-location pointer stays null in the copy")
     copy_ctor(ck)
+    captured_state(ck)
     for inst in sorted([F.flat(f) for f in F.fn_all(OT + "::process") if f.d.get("inst")], key=lambda f: f.name):
         handoff(ck, inst)
     ck.require(len([f for f in F.fn_all(OT + "::process") if f.d.get("inst")]) >= 2, "OwnThreadHandler instantiations not found")
+
+
+AMBIENT = ("QThread::currentThread", "QThread::currentThreadId", "QDateTime::currentDateTime", "QDateTime::currentDateTimeUtc", "QDateTime::currentMSecsSinceEpoch",
+           "QDateTime::currentSecsSinceEpoch", "QTime::currentTime", "QDate::currentDate", "std::chrono::steady_clock::now", "std::chrono::system_clock::now",
+           "std::chrono::high_resolution_clock::now", "std::chrono::_V2::steady_clock::now", "std::chrono::_V2::system_clock::now", "QCoreApplication::applicationPid",
+           "gettid", "pthread_self", "time", "clock_gettime", "gettimeofday", "std::this_thread::get_id")
+
+
+def captured_state(ck):
+    """what a handler reads from a message on the worker thread must be what was captured when the message was created on the
+    producer's thread: the read accessors of LogMessage may not sample the thread or the clock themselves"""
+    F = ck.facts
+    ck.rule("C03-O8", "the const accessors of LogMessage return captured state: thread id, time stamps are sampled in member initialisers / constructors only, never in a getter "
+                      "(a getter runs on the worker thread, later)")
+    rec = F.records.get(LM) or {}
+    is_amb = lambda n: n.get("k") == "call" and any(strip_tmpl(n.get("callee") or "").replace("_V2::", "") == a.replace("_V2::", "") for a in AMBIENT)
+    sampled = [f_["name"] for f_ in rec.get("fields", []) if isinstance(f_.get("init"), dict) and any(is_amb(x) for x in walk(f_["init"]))]
+    for c in F.fns.values():
+        if c.cls == LM and c.d.get("kind") == "ctor":
+            for i in c.inits:
+                if isinstance(i.get("e"), dict) and any(is_amb(x) for x in walk(i["e"])) and i.get("field"):
+                    sampled.append(i["field"].split("::")[-1])
+    ck.require(len(set(sampled)) >= 3, "fewer than 3 LogMessage members are sampled from the thread / clock at construction (time, steady time, thread id were confirmed by hand): %s" % sorted(set(sampled)))
+    getters = sorted([f for f in F.fns.values() if f.cls == LM and f.d.get("kind") == "method" and f.d.get("constm") and f.body is not None], key=lambda f: f.sig)
+    ck.require(len(getters) >= 12, "only %d const accessors of LogMessage found (17 confirmed by hand)" % len(getters))
+    seen = set()
+    for gfn in getters:
+        ck.touch(gfn)
+        # transitively through repository callees
+        stack, visited = [gfn], set()
+        bad = None
+        while stack and bad is None:
+            f = stack.pop()
+            if f.id in visited:
+                continue
+            visited.add(f.id)
+            for n in sorted(f.all_nodes(), key=lambda n: n["id"]):
+                if is_amb(n):
+                    bad = (f, n)
+                    break
+                if n.get("k") == "call" and n.get("fn") in F.fns and F.fns[n["fn"]].body is not None and len(visited) < 30:
+                    stack.append(F.fns[n["fn"]])
+        short = gfn.name.split("::")[-1]
+        if short in seen:
+            continue
+        seen.add(short)
+        ck.ob("C03-O8", sitestr(gfn) if bad is None else sitestr(bad[0], bad[1]), bad is None, "%s() returns captured state" % short if bad is None else
+              "%s() samples %s when it is called: behind the asynchronous hand-off that is the logger thread / a later moment, not the originator's" % (short, (bad[1].get("callee") or "").split("(")[0]),
+              key="LogMessage::%s|ambient" % short)
 
 
 def copy_ctor(ck):
